@@ -40,7 +40,7 @@ func init() { common.Register("C11", Run) }
 
 // probe: a query that must be answered with an error.
 type probe struct {
-	Kind string   `json:"kind"` // index-oob | index-on-scalar | index-on-single | index-into-string | unresolvable | failing-context
+	Kind string   `json:"kind"` // index-oob | index-on-scalar | index-on-single | index-into-string | missing-index | unresolvable | failing-context
 	Path []string `json:"path"`
 	Type string   `json:"type,omitempty"`
 	Rel  []string `json:"rel,omitempty"`
@@ -142,6 +142,16 @@ func exactKey(p []any) bool {
 	return true
 }
 
+func indexPositions(p []string) []int {
+	var out []int
+	for i, s := range p {
+		if _, err := strconv.Atoi(s); err == nil {
+			out = append(out, i)
+		}
+	}
+	return out
+}
+
 func noIndices(p []string) []string {
 	var out []string
 	for _, s := range p {
@@ -165,9 +175,35 @@ func classify(lf *leaf, def string) string {
 	return def
 }
 
+const maxStoredPerClass = 25
+
+// fail reports a failing input.  The replay input is trimmed to the field / probe concerned;
+// at most maxStoredPerClass inputs per classifier are kept in the report (all are counted).
 func (d *drv) fail(in *caseInput, class, what, only string) {
+	d.rep.Count("failures:" + class)
+	if d.rep.Distribution["failures:"+class] > maxStoredPerClass {
+		return
+	}
 	cp := *in
 	cp.Only = only
+	if only != "" {
+		cp.Leaves, cp.Probes, cp.Nodes = nil, nil, nil
+		for _, lf := range in.Leaves {
+			if strings.Join(lf.DocPath, ".") == only {
+				cp.Leaves = append(cp.Leaves, lf)
+			}
+		}
+		for _, pr := range in.Probes {
+			if pr.Kind+":"+strings.Join(pr.Path, ".") == only {
+				cp.Probes = append(cp.Probes, pr)
+			}
+		}
+		for _, ni := range in.Nodes {
+			if "type:"+ni.TypeTerm == only {
+				cp.Nodes = append(cp.Nodes, ni)
+			}
+		}
+	}
 	d.rep.Fail(class, what, &cp)
 }
 
@@ -382,6 +418,9 @@ func (d *drv) runCase(in *caseInput) {
 			if strings.HasPrefix(pr.Kind, "index-") {
 				class = "c11-index-unchecked"
 			}
+			if pr.Kind == "missing-index" {
+				class = "c11-index-missing"
+			}
 			if pr.Kind == "failing-context" {
 				class = "c11-failing-context"
 			}
@@ -467,6 +506,12 @@ func (d *drv) fromDoc(g *gen, gd *gdoc) *caseInput {
 			in.Probes = append(in.Probes, probe{Kind: "index-on-scalar", Path: append(cp(dp), strconv.Itoa(r.Intn(3)))})
 		case lf.ArrayLen == 0 && r.Intn(8) == 0:
 			in.Probes = append(in.Probes, probe{Kind: "index-into-string", Path: append(cp(dp), "0", "1")})
+		}
+		if idx := indexPositions(dp); len(idx) > 0 && !lf.Hetero && r.Intn(3) == 0 {
+			// a multi-member array addressed without its index: no single field is denoted
+			j := idx[r.Intn(len(idx))]
+			q := append(cp(dp[:j]), dp[j+1:]...)
+			in.Probes = append(in.Probes, probe{Kind: "missing-index", Path: q})
 		}
 		if i%3 == 0 && r.Intn(2) == 0 {
 			// unresolvable: an unknown term at a random non-index position
